@@ -110,6 +110,21 @@ func (eng *Engine) Load(patterns []string) error {
 			}
 		}
 	}
+	// closures
+	var addAnon func(f *ssa.Function)
+	addAnon = func(f *ssa.Function) {
+		for _, a := range f.AnonFuncs {
+			eng.funcs[fnKey(a)] = a
+			addAnon(a)
+		}
+	}
+	var tops []*ssa.Function
+	for _, f := range eng.funcs {
+		tops = append(tops, f)
+	}
+	for _, f := range tops {
+		addAnon(f)
+	}
 	eng.findConstErrors()
 	return nil
 }
